@@ -40,6 +40,12 @@ CHECKS = {
   text="Every combination of boundary field values (nonce, gas, price/tip/cap incl. 0 and 2^256-1, to nil/address/zero, value, data up to 4 KiB, access-list shapes, chain id incl. unprotected legacy, two signing keys) for the three transaction types (~56k signed transactions, thorough more) goes through FromEthereumTx -> ValidateBasic -> BuildTx -> TxEncoder -> TxDecoder -> GetMsgs -> AsTransaction. Hash, binary encoding, recovered sender, every field incl. V,R,S, msg.Hash, envelope fee/gas and Fee/Cost/EffectiveGasPrice/EffectiveFee/EffectiveCost over 6 base fees are compared with go-ethereum; ValidateBasic's verdict is compared with a reference predicate.",
   note="Trusted: go-ethereum's transaction type as the reference for hash/sender/cost; the grid, not arbitrary values.",
   design="DESIGN.md §3 C18"),
+ "C03": dict(
+  technique="bounded exhaustive exploration of post-signing mutations and submission orders through the real DeliverTx on branches of the deliver state, judged by a reference automaton (sequence number + validly signed payload set)",
+  engine="E1",
+  text="For seven transaction kinds (eth legacy / access-list / dynamic-fee, Cosmos DIRECT, Cosmos LEGACY_AMINO_JSON, legacy EIP-712 with Web3Tx extension, EIP-712-signed sign doc) every single-field mutation applied after signing (tx fields, signature values incl. malleated s and flipped v, chain id, Cosmos envelope fields, signer info, extension options, sign-doc account number / foreign key) is delivered, each followed by the untouched original; and every order <= 3 (thorough 4) over {t(n), t(n+1), t(n+1) and t(n) signed for another chain id, t(n+2), mutated t(n)} is delivered. Accepted iff validly signed for the current sequence; accepted transactions advance the sequence by exactly one and transfer exactly once.",
+  note="DeliverTx only (CheckTx uses the same ante chain on a state the harness does not branch). Base fee enabled in the fixture so dynamic-fee txs are admissible. Only-if direction; acceptance of every valid kind is required as a vacuity guard.",
+  design="DESIGN.md §3 C03"),
 }
 
 PENDING = {}
